@@ -9,7 +9,8 @@ EXPECTED = None
 SHARD = 80
 RULE = ("plain: input.NewPlain(d).Handle(r) with a scripted io.Reader — every cut position of short streams, random cuts, one-byte reads, empty "
         "reads (also 100+ in a row), data together with EOF and data together with a timeout error; lines of 0, 1, 65534-65537 bytes; CRLF, lone "
-        "CR, empty lines, unterminated tails. udp: Listener.HandleData on one datagram. amqp: a body through the real consumeAMQP loop (mock "
+        "CR, empty lines, unterminated tails. udp: Listener.HandleData on one datagram; udp_live: a real listener and socket on 127.0.0.1 and [::1] "
+        "with datagrams of 65507, 65508 and 65527 bytes (the largest IPv4 / IPv6 payloads; skipped and reported when the sandbox has no such address). amqp: a body through the real consumeAMQP loop (mock "
         "delivery channel), first-line lengths 4094-4098 and 9000. The dispatcher copies its argument at call time. "
         "non-trivial & distinct = distinct (stream, segmentation) pairs with at least one cut inside a line")
 ASSUMPTIONS = ["bufio.Scanner / bufio.Reader.ReadLine behave like Model/Plain.v (this very run validates that)"]
@@ -84,6 +85,9 @@ def gen(rng, tier):
         cases.append({"kind": "plain", "script": [{"t": "data", "b": b"a 1 2\nb".hex()}] + [{"t": "data", "b": ""}] * k + [{"t": "data", "b": b" 3 4\n".hex()}, {"t": "eof"}]})
     for _ in range(60 if tier == "quick" else 600):
         cases.append({"kind": "udp", "body": gen_stream(rng).hex()})
+    # datagrams of the largest sizes an address family carries, through a real socket and consumeUdp's receive buffer
+    for host, size in [("127.0.0.1", 65507), ("[::1]", 65507), ("[::1]", 65508), ("[::1]", 65527), ("127.0.0.1", rng.randrange(1, 3000))]:
+        cases.append({"kind": "udp_live", "host": host, "body": sized_datagram(rng, size).hex()})
     for L in (10, 4094, 4095, 4096, 4097, 4098, 8191, 8192, 9000):
         for term in (b"\n", b"\r\n", b""):
             cases.append({"kind": "amqp", "body": (b"m" * L + term + b"second 1 2\n" + rng.choice([b"", b"tail"])).hex()})
@@ -96,6 +100,18 @@ ST = {"ok": 0, "err": 1, "toolong": 2, "noprogress": 3}
 RR = {"data": "RData", "dataeof": "RDataEof", "dataerr": "RDataErr"}
 
 
+def sized_datagram(rng, size):
+    out = b""
+    i = 0
+    while len(out) < size:
+        out += b"verif.udp.%06d %d 1500000000\n" % (i, rng.randrange(1000))
+        i += 1
+    out = out[:size]
+    if rng.random() < .5 and size > 40:      # sometimes a newline as the very last byte
+        out = out[:-1] + b"\n"
+    return out
+
+
 def to_coq(case, obs):
     lines = clist([cbytes(bytes.fromhex(l)) for l in obs["lines"]], "bytes")
     if case["kind"] == "plain":
@@ -106,6 +122,10 @@ def to_coq(case, obs):
             else:
                 sc.append("REof" if st["t"] == "eof" else "RErr")
         return "KPlain %s %s %s" % (clist(sc, "rres"), lines, cN(ST[obs["status"]]))
+    if case["kind"] == "udp_live":
+        if obs["status"] == "skip":          # no such loopback address / datagram size in this sandbox: nothing observed
+            return "KUdp %s %s" % (cbytes(b""), clist([], "bytes"))
+        return "KUdp %s %s" % (cbytes(bytes.fromhex(case["body"])), lines)
     if case["kind"] == "udp":
         return "KUdp %s %s" % (cbytes(bytes.fromhex(case["body"])), lines)
     return "KAmqp %s %s" % (cbytes(bytes.fromhex(case["body"])), lines)
@@ -137,6 +157,13 @@ def distribution(cases):
             d["final=" + c["script"][-1]["t"]] += 1
             d["reads"] += len(c["script"])
     return dict(d)
+
+
+def coverage_extra(cases, obss):
+    live = [(c, o) for c, o in zip(cases, obss) if c["kind"] == "udp_live" and o]
+    return {"udp_live": {"run": sum(1 for c, o in live if o["status"] != "skip"),
+                         "skipped_no_such_address_or_size": ["%s/%d" % (c["host"], len(c["body"]) // 2) for c, o in live if o["status"] == "skip"],
+                         "largest_datagram_received": max([len(c["body"]) // 2 for c, o in live if o["status"] != "skip"] or [0])}}
 
 
 def signature(case, obs, code, err):
